@@ -9,15 +9,25 @@ ALL = ["C%02d" % i for i in range(1, 21)]
 CLAIMED = {
     "C01": dict(
         engine="conn+mem",
-        text="Lean 4 theorems over an executable model of the buffer layer of connection.c on top of the pool model "
-             "(alloc_memory_, try_grow_read_buffer, shrink_read_buffer, maximize_write_buffer, consume, shift-back, "
-             "receive, reset, error-path releases): for every operation sequence with every argument both windows stay "
-             "inside the arena, ordered and disjoint, and a receive writes only inside the read window; composed with C08 "
-             "(pool) and C02/C03 (parser index safety). Tie: white-box op-sequence correspondence of the real static "
-             "functions vs the model (bounded-exhaustive + random, independent window oracle) and the real daemon under "
-             "ASan+UBSan on size-directed, pipelined and mutated byte streams x arena sizes 64..32768 x levels -3..3 x "
-             "segmentations x handler behaviours, with a bystander connection that must stay served. PARTIAL: the theorem "
-             "is about the model; C-level UB that is not an out-of-range index is only observed by the sanitizers.",
+        text="Lean 4 theorems over (1) an executable model of the buffer layer of connection.c on top of the pool model "
+             "(alloc_memory_, try_grow_read_buffer, shrink_read_buffer, maximize_write_buffer, consume, shift-back, body-drop, "
+             "receive, reset, error-path releases): for every operation sequence with every argument both windows stay inside the "
+             "arena, ordered and disjoint; and (2) the COMPOSED model ConnRead of the receiving half of a connection on one byte "
+             "arena - MHD_connection_handle_read, the handle_idle states INIT..FOOTERS_RECEIVED, get_request_line, "
+             "process_request_target, get_req_headers incl. shift-back, check_and_grow_read_buffer_space, process_request_body "
+             "(identity and chunked via C03's chunkAct, handler take pattern), trailers, connection_reset with keep-alive - running "
+             "C02's parser models on the arena through the buffer layer: connread_no_fault / connread_parser_view_inside / "
+             "connread_full_buffer_is_error hold for every byte stream x every segmentation x every arena and pool size x every "
+             "strictness level x every framing / keep-alive decision x every take pattern, i.e. for whole pipelined request "
+             "sequences (the composition proves that every op issued is valid and every parser precondition is established). Tie: "
+             "white-box `mem` engine (the real static functions incl. the real parsers and process_request_body on a fabricated "
+             "connection with a real pool, state diffed against the model after every chunk incl. the window bytes; independent "
+             "window and liveness oracles) and the real daemon under ASan+UBSan and under pool poisoning on size-directed, pipelined "
+             "and mutated byte streams x arena sizes 64..32768 x levels -3..3 x segmentations x handler behaviours, with a bystander "
+             "connection that must stay served. PARTIAL: cookies, 100-continue, early replies, MHD_NO from the handler and the "
+             "write-buffer side of replies are outside ConnRead (covered by the buffer-layer theorem + daemon runs); the one-arena "
+             "content invariant is checked at run time (sync flag + window diff), its stage-1 proof is parked in wip/; C-level UB "
+             "that is not an out-of-range index is only observed by the sanitizers.",
         note="Trusted: Lean kernel; propext/Classical.choice/Quot.sound only; hand-written ConnMem model + correspondence "
              "harness/h_mem.c (calls the real statics) and harness/h_daemon.c; gcc ASan/UBSan. External select/epoll "
              "modes only (threaded modes: C18).",
@@ -25,27 +35,39 @@ CLAIMED = {
         technique="Lean 4 proof (invariant by induction over buffer operations) + model/code correspondence + sanitizer oracle"),
     "C02": dict(
         engine="conn",
-        text="Lean 4 theorems over a byte-accurate model of get_request_line_inner / get_req_header / get_req_headers (incl. the repaired "
-             "shift-back), for every level (every flag combination), every buffer content and every segmentation: fault-freedom; split "
-             "independence (generic scanner lemma + per-parser locality); stability (all strings handed out lie below read_buffer after "
-             "the tail is re-used, bytes unchanged). Canonical-rendering round trip proved for the header section at all levels and for "
-             "the request line at levels >= 0 (partial). Target/argument decoding, cookies, non-canonical renderings and request-line "
-             "levels < 0 are carried by correspondence: bounded-exhaustive white-box differential (all strings <= 5/6 bytes x 7 levels "
-             "x 2 feeding modes, 24.7M cases quick) + the real daemon with rendered requests against a semantic oracle and the model.",
-        note="Assumes the request fits the arena (413/414/431 one class), the default unescape callback, the configured build; one-shot "
-             "parsers (target, arguments, unescape, cookies) have no fault-freedom theorem (model has explicit faults; correspondence only).",
+        text="Lean 4 theorems (28) over byte-accurate models of get_request_line_inner / get_req_header / get_req_headers (incl. the "
+             "repaired shift-back), process_request_target, MHD_parse_arguments_, the strict and lenient in-place percent decoders, "
+             "MHD_unescape_plus, parse_cookie_header and MHD_lookup_connection_value_n, for every level (every flag combination), "
+             "every buffer content and every segmentation: fault-freedom of the incremental scanners AND of the one-shot parsers "
+             "(get_request_line_no_fault, args/target_no_fault, cookie_no_fault); split independence; stability of all strings "
+             "handed out; target_decoding_exact (path and (key, value-or-none) argument list = reference decoding for every NUL-free "
+             "target) and the round trip target_render_decode over every admissible percent-encoding choice "
+             "(every_target_has_rendering); request-line round trip at every level (whitespace blocks at levels < 0) from method + "
+             "raw target to method, decoded path, arguments, version; header-section and cookie round trips for canonical "
+             "renderings; lookup_exact (first element of the kind with caselessly equal name of equal length - never a prefix). By "
+             "correspondence only: whitespace inside the URI / bare CR at levels < 0, non-canonical field renderings (OWS, folding, "
+             "bare LF, CR/NUL replacement), lenient cookie renderings. Tie: bounded-exhaustive white-box differential (all strings "
+             "<= 5/6 bytes x 12 templates x 7 levels x 2 feeding modes, 24.7M cases quick), white-box look-up op, and the real "
+             "daemon with rendered requests (875k look-up probes per quick run) against a semantic oracle and the model.",
+        note="Assumes the request fits the arena (413/414/431 one class), the default unescape callback, the configured build. "
+             "Trusted: Lean kernel, standard axioms, harness/h_reqparse.c, h_conn02.c, the Python semantic oracle.",
         design="DESIGN.md §3 C02/C03", technique="Lean 4 proof (scanner split-independence lemma, invariants, round-trip lemmas) + model/code correspondence + semantic oracle"),
     "C03": dict(
         engine="frame",
-        text="Lean 4 proof: decideBody (Transfer-Encoding/Content-Length decision of parse_connection_headers) vs RFC 9112 s6.3 for all "
-             "field lists and levels, every curated defect class rejected; chunk decoder decode(encode) = id with exact consumption "
-             "for every admissible chunking; split independence of the whole connection automaton for every segmentation; pipelined "
-             "valid streams framed exactly as generated and as a strict reference framer does; safety invariant 'no re-parse after "
-             "discard / error / close' over all transition sequences. Tie: regenerated thresholds, daemon + white-box correspondence "
-             "(pipelines x 18 defect kinds x splits x 7 levels x handler timings), independent Python reference framer.",
-        note="Request heads restricted to CanonicalHead (strict splitter; the head parser is C02); in the theorems the application takes all "
-             "offered bytes and replies at the final call (partial takes by correspondence); no-space paths oracle-only. Trusted: Lean "
-             "kernel, standard axioms, harness/h_conn03.c, h_chunk.c.",
+        text="Lean 4 proof (24 theorems): decideBody (Transfer-Encoding/Content-Length decision of parse_connection_headers) equals "
+             "the RFC 9112 s6.3 reference decision for EVERY field list, level and version (decideBody_agrees_reference, total; "
+             "mixed case, OWS, duplicates, list values), every defect class refused with close (framing_defect_no_resync); chunk "
+             "decoder decode(encode) = id with exact consumption for every admissible chunking (extensions, BWS, bare LF, leading "
+             "zeros per level); split independence of the connection automaton for every segmentation; pipelined valid streams "
+             "framed exactly as a strict reference framer does, for every handler take pattern (partial_takes_no_desync, "
+             "pipeline_no_desync_takes); safety invariant 'no re-parse after discard / error / close' over all transition sequences. "
+             "The head parser is a parameter constrained by the incremental-scanner laws (the strict splitter is proved lawful; for "
+             "the real parser the laws are C02's split-independence theorems, not formally instantiated). Tie: regenerated "
+             "thresholds, daemon + white-box correspondence (pipelines x defect kinds x splits x 7 levels x handler timings x take "
+             "patterns; 39k non-canonical field lists and 8k white-box bodytake cases per quick run), independent Python reference "
+             "framer.",
+        note="No-space paths oracle-only; non-strict head renderings are C02's. Trusted: Lean kernel, standard axioms, "
+             "harness/h_conn03.c, h_chunk.c.",
         design="DESIGN.md §3 C02/C03", technique="Lean 4 proof + regenerated thresholds + model/code correspondence + reference framer oracle"),
     "C09": dict(
         engine="daemon",
@@ -59,28 +81,36 @@ CLAIMED = {
         design="DESIGN.md §3 C09", technique="Lean 4 proof (invariants + conservation laws over step/run) + scripted differential run + oracle"),
     "C10": dict(
         engine="tmo",
-        text="Lean 4 proof over a model of the timeout logic (close decision / wait with uint64 wrap and the 5 s jump-back rule; normal, "
-             "manual, suspended, cleanup, eready lists in pointer order; override, suspend/resume, new-connection processing, "
-             "MHD_get_timeout64, select and epoll rounds): 25-field invariant incl. sortedness for every history with a monotone clock; "
-             "round soundness (closed => idle > T, never suspended) for all states; round completeness for epoll and select; hint <= "
-             "earliest deadline + 100 ms and 0 when pending; override immediate; resume restarts. Tie: line-by-line correspondence incl. "
-             "white-box list dump under a virtual clock (bounded-exhaustive + random, select + epoll), independent idle-time oracle.",
-        note="Single-threaded external polling only; activity = received bytes; backward clock jumps at function level only; behaviour "
-             "flags probed from the real code each run (a regression of a repaired defect flips a flag and breaks `current_is_repaired`).",
+        text="Lean 4 proof (46 theorems) over a model of the timeout logic (close decision / wait with uint64 wrap and the 5 s "
+             "jump-back rule; normal, manual, suspended, cleanup, eready lists in pointer order; override, suspend/resume, "
+             "new-connection processing, MHD_get_timeout64 and its wrappers, select and epoll rounds) for ARBITRARY clocks: the "
+             "invariant incl. sortedness of the default-timeout list is unconditional; round soundness (closed => idle > T, never "
+             "suspended), round completeness for epoll and select and hint <= earliest deadline + 100 ms hold for every history in "
+             "which the clock is at most 5000 ms behind its high-water mark (the code's own tolerance; largeDisplacement witness "
+             "shows the hypothesis cannot be dropped); hint 0 when pending; override immediate; resume restarts; conversions "
+             "(MHD_get_timeout, _get_timeout64s, _get_timeout_i, get_timeout_millisec_(int), select / thread timevals) never wait "
+             "longer than the hint for every uint64 value. Tie: line-by-line correspondence incl. white-box list dump under a "
+             "virtual clock (bounded-exhaustive + random, select + epoll, a backward jump at every position of base histories), "
+             "white-box conversion op, independent idle-time oracle.",
+        note="Single-threaded external polling only; activity = received bytes; the two inline timeval conversions are tied by "
+             "source pattern (LP64 only); behaviour flags probed from the real code each run (a regression of a repaired defect "
+             "flips a flag and breaks `current_is_repaired`).",
         design="DESIGN.md §3 C10", technique="Lean 4 proof (invariant by induction over operations) + model/code correspondence + oracle"),
     "C11": dict(
         engine="susp",
-        text="Lean 4 proof over a model of internal_suspend_connection_ / MHD_resume_connection / resume_suspended_connections, the "
-             "select/poll/epoll traversals and the connection state machine's `suspended` guards, for every history, mode, readiness "
-             "answer and application script: lists stay consistent; a suspended connection is in no traversed list, gets no handler / "
-             "reader / recv / send and keeps its state; the next resume pass re-enters at the same state (epoll: read+write ready); both "
-             "orders of the suspend/resume race coincide; upload and reply are delivered losslessly (conservation laws); stutter "
-             "equivalence: histories with the same suspend-erased plan deliver the same reply and upload bytes. The guard table is "
-             "regenerated each run (behavioural probes + source patterns): a missing guard breaks `guards_present`. Tie: all placements "
-             "of <= 2/3 suspend points x resume delays x select/epoll x 1-2 connections, exact callback-order diff, I/O-interposing "
+        text="Lean 4 proof (21 theorems) over a model of internal_suspend_connection_ / MHD_resume_connection / "
+             "resume_suspended_connections, the select/poll/epoll traversals and the connection state machine's `suspended` guards, "
+             "for keep-alive PIPELINES of requests, every history, mode, readiness answer and application script: lists stay "
+             "consistent; a suspended connection is in no traversed list, gets no handler / reader / recv / send and keeps its state "
+             "incl. buffered pipelined data; the next resume pass re-enters at the same state; epoll_no_lost_wakeup (a resumed "
+             "connection gets its turn in the next round without a new epoll event); both orders of the suspend/resume race "
+             "coincide; resume landing inside a traversal is not lost (partial: between non-traversal phases not proved); upload and "
+             "reply delivered losslessly over the whole pipeline; stutter equivalence. The guard table is regenerated each run "
+             "(behavioural probes + source patterns). Tie: all placements of <= 2/3 suspend points x resume delays x select/epoll x "
+             "1-2 connections x pipelined requests, exact callback-order diff and equal timeout-hint sequences, I/O-interposing "
              "harness, oracle against the suspends-erased run.",
-        note="HTTP parsers abstracted to symbols, one request per connection in the model, no timeouts / socket errors / "
-             "thread-per-connection; internal-thread modes and second-thread resume by canonical projection + oracle.",
+        note="HTTP parsers abstracted to symbols; socket errors and thread-per-connection outside the model (C06/C07); ITC not "
+             "modelled (hintZero stands in); internal-thread modes by canonical projection + oracle with confirm-by-rerun.",
         design="DESIGN.md §3 C11", technique="Lean 4 proof (simulation / conservation laws) + behavioural guard probes + real-daemon correspondence + log oracle"),
     "C12": dict(
         engine="dauth",
@@ -129,13 +159,16 @@ CLAIMED = {
         design="DESIGN.md §3 C16", technique="Lean 4 refinement proof + instrumented-execution extractor + triple differential (model, code, hashlib)"),
     "C17": dict(
         engine="str",
-        text="Lean 4 proofs over a model of mhd_str.c for all inputs: decimal/hex parse and print are exact inverses with exact overflow and "
-             "short-buffer detection; hex<->bin, percent-decoding (strict/lenient, copying = in place), quote/unquote/quoted comparison, "
-             "base64 (RFC 4648, canonical padding), caseless comparison and has_token equal short reference specifications; none of them, "
-             "nor remove_token, reads beyond the stated length or writes beyond the stated size. remove_token's output and remove_tokens "
-             "are tied by correspondence only (partial). Tie: exhaustive (8/16-bit domains), bounded-exhaustive (strings <= 4/5 over 18 "
-             "bytes x all buffer sizes) and random correspondence under ASan, Python references.",
-        note="Tables/constants regenerated from the source; remove_token output characterisation and remove_tokens not proved.",
+        text="Lean 4 proofs (52 theorems) over a model of mhd_str.c for all inputs: decimal/hex parse and print are exact inverses "
+             "with exact overflow and short-buffer detection; hex<->bin, percent-decoding (strict/lenient, copying = in place), "
+             "quote/unquote/quoted comparison, base64 (RFC 4648, canonical padding), caseless comparison, has_token, remove_token "
+             "(removeToken_exact: flag, output = reference editor, 'too small' exactly when the reference output does not fit, for "
+             "every legal token and buffer size) and remove_tokens (removeTokens_exact on every comma-space list; removeToken's "
+             "output provably is one) equal short reference specifications; none of them reads beyond the stated length or writes "
+             "beyond the stated size. Tie: exhaustive (8/16-bit domains), bounded-exhaustive (strings <= 4/5 over 18 bytes x all "
+             "buffer sizes; 2.0M remove_token and 0.5M remove_tokens calls per quick run) and random correspondence under ASan, "
+             "Python references.",
+        note="Tables/constants regenerated from the source; objects at most SSIZE_MAX bytes.",
         design="DESIGN.md §3 C17", technique="Lean 4 proof + correspondence + reference oracle"),
     "C18": dict(
         engine="locks",
@@ -150,12 +183,17 @@ CLAIMED = {
         design="DESIGN.md §3 C18", technique="Lean 4 decide +kernel over a clang-AST-extracted table + abstract thread model + TSan stress with watchdog"),
     "C19": dict(
         engine="ws",
-        text="Lean 4 proof over a model of mhd_websocket.c: split independence of whole sessions for all states and chunk lists; no "
-             "out-of-buffer access or non-termination for all states and inputs; each RFC 6455 violation class yields the prescribed "
-             "status and an invalid stream; round trip for single-frame text/binary, ping/pong and close for all lengths and keys. "
-             "Fragmented round trip by correspondence only (partial). Tie: regenerated enums, exhaustive header-pair and UTF-8 "
-             "comparison, structured random streams x splits, independent RFC 6455 reference.",
-        note="Round-trip part partial (fragmentation); accept-header helper oracle-only; alignment UB observed by a separate UBSan run.",
+        text="Lean 4 proof (29 theorems) over a model of mhd_websocket.c (decoder state machine byte for byte, incremental UTF-8 "
+             "checker, the real encoders): split independence of whole sessions for all states and chunk lists; no out-of-buffer "
+             "access or non-termination for all states and inputs; each RFC 6455 violation class yields the prescribed status and an "
+             "invalid stream; round trip through the modelled real encoders for single frames (roundtrip_data / _pingpong / _close / "
+             "_close_noreason) and for FRAGMENTED messages in both decoder modes with interleaved ping/pong frames and fragment "
+             "boundaries inside UTF-8 characters (roundtrip_fragmented_assembled, roundtrip_fragmented_fragments, fragments_binary, "
+             "fragments_lossless), for every payload size, key, role and split. A close frame between fragments is not a round trip "
+             "(=> bad_frame_sequence). Tie: regenerated enums, exhaustive header-pair (65 536) and UTF-8 comparison, structured "
+             "random streams x splits, fragmented messages through the real encoders x 2 modes x splits (1168 messages / 13.9k "
+             "scripts per quick run), independent RFC 6455 reference.",
+        note="Accept-header helper oracle-only; alignment UB observed by a separate UBSan run.",
         design="DESIGN.md §3 C19", technique="Lean 4 proof + model/code correspondence + RFC 6455 reference oracle"),
     "C20": dict(
         engine="upg",
@@ -170,64 +208,81 @@ CLAIMED = {
         design="DESIGN.md §3 C20", technique="Lean 4 proof + model/code correspondence (per-fd I/O interposition) + log oracle"),
     "C04": dict(
         engine="reply",
-        text="Lean 4 proof over a model of response.c / connection.c reply building: every finite sequence of response-API calls "
-             "(add/del header, footer, options) preserves the 'flags_auto <=> header list' invariant; every completely sent reply - all "
-             "statuses accepted by MHD_queue_response, methods, versions, connection states, buffer and callback bodies - parses under "
-             "a strict HTTP/1.x grammar (independent of the model) with exactly one body delimitation (none for HEAD/1xx/204/304; "
-             "chunked only to 1.1 clients; Content-Length = body; close-delimited), body = the application's bytes, user headers "
-             "verbatim/once/in order, closesAfter => announced Connection: close, 100-continue only when asked. The converse 'announced "
-             "close => daemon closes' is carried by correspondence only (partial). Tie: exhaustive differential of the decision "
-             "functions (33M points), bounded-exhaustive API call sequences, random full exchanges, strict-parser oracle.",
-        note="Hypotheses: no insanity flag; header names without ':'; numeric application Content-Length; callback contract; reply sent "
-             "completely; no allocation failure. TLS, iovec/fd/pipe senders and socket faults outside the model (C07).",
+        text="Lean 4 proof (12 theorems): calls_preserve_inv (induction over every legal sequence of add/del header/footer calls "
+             "from any constructor), reply_wellFramed against a strict HTTP/1.x response grammar, one_body_delimitation (incl. "
+             "trailers only on chunked replies with a body), no_body_when_forbidden, user_headers_verbatim (headers and footers: "
+             "once, in insertion order), close_announced_iff (a `close` token in a Connection field of the wire head <=> the daemon "
+             "closes after the reply; the model copies of both string editors MHD_str_remove_token(s)_caseless_ are specified and "
+             "proved, no assumed editor specs), continue_only_when_asked, error_reply_framed_and_closes "
+             "(transmit_error_response_len: complete, WellFramed, never chunked, announces close), iovec_body_is_concatenation "
+             "(MHD_create_response_from_iovec: counting/compaction loops, single-buffer shortcut, overflow checks; body = "
+             "concatenation of the elements for every array). Tie: exhaustive differential of keepalive_possible / "
+             "is_reply_body_needed / setup_reply_properties over their whole abstracted input space (33M points), bounded-exhaustive "
+             "API sequences, white-box transmit_error_response_len (6.3k cases quick), full exchanges through the real daemon for "
+             "every response constructor incl. degenerate-but-legal inputs (all iovec arrays of length <= 3 over "
+             "zero-length/NULL/overlapping elements, NULL buffers, size-0 fd/pipe/callback), strict Python response parser.",
+        note="Hypotheses: no insanity flag; header names without ':'; numeric application Content-Length; callback contract. Error "
+             "replies are tied white-box (transmit_error_response_len), not as full malformed-request exchanges (C03/C05 do those).",
         design="DESIGN.md §3 C04", technique="Lean 4 proof + regenerated constants + exhaustive/bounded/random differential + strict-parser oracle"),
     "C05": dict(
         engine="sm",
-        text="Lean 4 refinement proof: for every sequence of connection events (receive, EOF, read error, handle_idle under any "
-             "environment incl. timeout / pool exhaustion / allocation failure / epoll_ctl result / reader outcomes / shutdown, write "
-             "results, forced close, resume, stop, cleanup, queue_response outside the handler) and every application, the callback log "
-             "of the connection model (MHD_CONNECTION_STATE granularity, all entries into CLOSED) is accepted by the call-protocol "
-             "automaton (first call without upload and with a fresh context; upload calls contiguous, re-presenting only the declined "
-             "suffix; no call after a response is queued or the handler failed; completion exactly for presented requests, once, same "
-             "context, strings not released before it; start/close bracket everything) and is complete once the connection is freed. "
-             "Repair flags regenerated from connection.c are proof obligations; kernel-checked witnesses for the four repaired paths. "
-             "Tie: callback-sequence + white-box state correspondence on a bounded-exhaustive placement grid (12 request shapes x phase "
-             "boundaries x 8 client/daemon actions x 18 handler behaviours) + random histories; independent automaton oracle.",
-        note="Parsers abstracted to tokens; external select/epoll modes; upload completeness oracle-only; idle-loop fuel sufficiency not "
-             "proved (fault if exhausted, never observed); 102-Processing, upgrade, thread-per-connection shutdown path not modelled.",
+        text="Lean 4 proof (14 theorems) over a model of the request state machine at MHD_CONNECTION_STATE granularity incl. interim "
+             "(102) replies (handler asked again after a complete 102) and upgrade responses (MHD_response_execute_upgrade_, "
+             "upgradeDone, execution failure): protocol_accepts / protocol_complete (every event list incl. timeouts, pool "
+             "exhaustion, allocation and epoll_ctl failures, stop, resume, upgrade; every application) against the call-protocol "
+             "automaton; aware_iff_open_request; closed_only_unaware; upgraded_holds_no_response; regenerated repair flags "
+             "(tree_f9_fixed, tree_other_repairs) with kernel-checked witnesses of F9/F9b/F9c/F14. Tie: placement grid 12 request "
+             "shapes x phase boundaries x 8 actions x 28 handler behaviours (19.6k cases quick) + 168 interim/upgrade scripts + "
+             "interim-with-pipelined-bytes scripts + random histories on the real daemon (select + epoll): exact callback sequence "
+             "and white-box state / client_aware at every settled point vs the model; independent automaton oracle.",
+        note="Parsers abstracted to tokens; external select/epoll modes; upload completeness oracle-only; idle-loop fuel sufficiency "
+             "not proved; thread-per-connection shutdown and TLS upgrade forwarding not modelled.",
         design="DESIGN.md §3 C05", technique="Lean 4 refinement proof + predictive correspondence + independent automaton oracle"),
     "C06": dict(
         engine="loop",
-        text="Lean 4 theorems over a model of the three event loops (connection lists in pointer order with prev resolved in the list that "
-             "holds the node, call_handlers, get_fdset, get_timeout class): round post-condition for select/poll/epoll, invariant over "
-             "all histories, no lost wake-up (timeout none and no watched fd ready => no connection can proceed), progress of an awaiting "
-             "connection within rank+1 fair rounds whatever other connections do; kernel-checked witness that the unsaved-prev select "
-             "loop (F10) violates it; for every lawful per-connection step. Tie: saves-prev flags regenerated from daemon.c (a regression "
-             "breaks the build), per-round predictive correspondence for select and epoll (bounded-exhaustive <= 4/5 events x 2 "
-             "connections + random), law monitoring on every logged handler call, independent quiescence oracle.",
-        note="Per-connection step is a parameter under explicit law records; the poll loop has model, proof and regenerated flag only (no "
-             "external poll mode exists); timeout values are C10; accept, TLS, upgrade, thread-per-connection not modelled; kernel epoll "
-             "events are an input.",
+        text="Lean 4 proof (45 theorems): round post-conditions for the select / poll / epoll loops, invariant over histories, "
+             "no_lost_wakeup(_epoll), progress (the per-connection step is a parameter constrained by laws that are monitored on "
+             "every logged call); thread-per-connection loop (thread_main_handle_connection): tpc_invariant_reachable, "
+             "tpc_no_lost_wakeup (at every blocking call: suspended => waits on the ITC for <= 250 ms; active => waits on the socket "
+             "with zero timeout when work is pending; infinite timeout => nothing could proceed), tpc_resume_is_served, "
+             "tpc_progress, kernel-checked witnesses that the property fails without the F29 re-check and without the F30 early "
+             "marking, two regenerated source facts (the file does not build on a tree lacking either fix); "
+             "connsm_wait_class_in_table (C05's eventLoopInfo agrees with the regenerated state -> wait-class table). Tie: "
+             "trace-driven per-round / per-thread-iteration prediction against the real daemon in external select and epoll modes "
+             "and, in lock-step through a gated poll(), the internal poll thread and thread-per-connection (all threads park in the "
+             "interposed poll(); exhaustive schedules of <= 4 events on 2 connections); quiescence oracle.",
+        note="Per-connection step is a parameter under explicit law records (only the wait-class table is proved for C05's ConnSM); "
+             "thread-per-connection with select() is model + theorems only; one thread iteration is atomic with respect to the "
+             "daemon thread (finer interleavings: C18).",
         design="DESIGN.md §3 C06", technique="Lean 4 proof + regenerated flags + trace-driven model correspondence + log oracle"),
     "C07": dict(
         engine="send",
-        text="Lean 4 proof, for every fault script of any length: bytes delivered to the client are a prefix of the reply stream and the "
-             "offsets account for exactly the rest (header+body coalescing, iovec tracker, sendfile with fallback, chunk framing); a hard "
-             "socket error closes without sending; transient-only scripts never close and complete within 8*|R| productive rounds; every "
-             "modelled allocation failure closes or is a no-op; upload bytes handed to the application are a prefix of the body. Tie: "
-             "call-by-call replay of real fault-injected exchanges (libc interposition, --wrap malloc), complete single-fault "
-             "enumeration per scenario (thorough), random multi-fault plans, independent log oracle, LeakSanitizer.",
-        note="Completion-notification and resource-release clauses are carried by the implementation-side oracle on every enumerated run "
-             "(and by C05/C09's theorems). TLS and threaded modes not covered.",
+        text="Lean 4 proof (24 theorems) over a model of the write path (header / body / chunk / footer phases, combined header+body "
+             "send, iovec with partial elements, sendfile with offset and fallback, pipe, callback readers incl. END_WITH_ERROR) and "
+             "the upload path: delivered_prefix and session_prefix (all bytes the socket accepted over a keep-alive session are a "
+             "prefix of the concatenated reply streams, no duplication or gap, for every fault script), done_delivers_all, "
+             "transient_never_closes, transient_fair_delivers_all (any infinite schedule of transient results under an explicit "
+             "fairness hypothesis), closed_never_sends, hard_error_closes, sendfile_error_policy, alloc_failure_*, upload_prefix / "
+             "upload_complete / upload_transient_unchanged / upload_hard_error_closes, release_exactly_once and "
+             "permanent_failure_releases_once (one completion notification iff the request was presented, response reference dropped "
+             "exactly once, pool destroyed or reset exactly once, stable afterwards). Tie: syscall-level replay of fault-injected "
+             "exchanges on the real daemon (interposed send/sendmsg/sendfile/recv, --wrap malloc/calloc with the failing site "
+             "symbolised), completion count and code per reply and response refcount = 1 after release compared with the model, "
+             "complete single-fault enumeration in the thorough tier.",
+        note="Premature END_OF_STREAM on a known-size body not modelled; pool destroy/reset and cleanup counters proved in the "
+             "model, tied only via sanitizers; chunked uploads are C03's.",
         design="DESIGN.md §3 C07", technique="Lean 4 proof (invariant over fault scripts + progress measure) + fault enumeration as validation"),
     "C15": dict(
         engine="pp",
-        text="Lean 4 theorems over a model of postprocessor.c. urlencoded: full round trip for every conforming rendering, every split incl. "
-             "empty chunks and every buffer size (contiguous offsets, order, every call MHD_YES); split independence; no fault incl. loop "
-             "termination for all inputs. multipart: for all inputs and splits no out-of-object access and no fabricated value byte "
-             "(modulo an unproved loop-termination bound - partial). The multipart round trip (single-level and nested) is carried by "
-             "the correspondence run only. Tie: regenerated constants; model-vs-code diff over bounded-exhaustive 2/3-way splits, "
-             "byte-by-byte, random and malformed bodies x buffer sizes; independent oracle.",
+        text="Lean 4 proof (8 theorems): urlencoded: url_roundtrip(_tokens), url_every_call_accepts, url_split_independent, "
+             "url_no_fault for every field list, every split and every buffer size >= 256; multipart: multipart_all_inputs (all "
+             "inputs and splits: no fault, loop termination, every delivered byte is a byte of the input), multipart_roundtrip "
+             "(single level: for every buffer size, boundary, part list with arbitrary binary values incl. boundary look-alikes, and "
+             "EVERY chunk list whose concatenation is the encoding: all calls accept and the delivered (key, filename, content type, "
+             "transfer encoding, value pieces with contiguous offsets) equal the fields), multipart_split_independent. Not proved: "
+             "nested multipart/mixed round trip; a syntactic sufficient condition for the header-parse clause of PartOk. Tie: all "
+             "2/3-way splits of small bodies, byte-by-byte, random, malformed, look-alike x border splits and line-fill cases at "
+             "buffer sizes 256/257/300 against the real MHD_post_process.",
         note="Multipart round trip and multipart loop termination not proved (stated in Props/C15.lean).",
         design="DESIGN.md §3 C15", technique="Lean 4 proof + translator for constants + bounded-exhaustive/random correspondence"),
     "C08": dict(
